@@ -89,8 +89,9 @@ requires (conjunct → why it is needed):
   written at init, older than the window, equal to the current params (the model has no params-change
   message: this is the model's own shape, not a restriction of the histories);
 * `from < to` for `from = max(h+1, to − MaxNonce + 1)`, `to` = restart height: the last validator-set
-  change is at least two blocks back (otherwise recache takes the branch without any replay *and
-  without `PrepareRoundEndBlock`* — see the report: restarted node has no rounds) and `MaxNonce ≥ 2`;
+  change is at least two blocks back and `MaxNonce ≥ 2` (otherwise recache takes the branch without
+  any replay, which this proof does not cover; before the F-14c repair that branch did not prepare
+  the rounds at all — `C14_restart_after_valset_change_regression`);
 * `startOK`: after EndBlock of height `from − 1` the live context equals (up to nonces) the context
   `recacheAgc` starts its replay from — empty, prepared at `from − 1` — and the cache is the one a
   recached node holds: no round is in progress with messages older than the window, every round that
@@ -103,8 +104,9 @@ requires (conjunct → why it is needed):
   message whose block entries `RemoveCache` drops (F-14b), (b) the first of its validator at that
   worker (F-14a: the log has no nonces), (c) reproduced when the *logged* sources (the filter's
   output) are fed back to the same state; and the persisted `RecentMsg` of that height is exactly
-  what the block cached (fails on a chain younger than `MaxNonce`, where the uint64 subtraction in
-  `cacheMsgs.commit` wraps and the commit erases the whole log). -/
+  what the block cached (a check on the committed store, not derived from the pruning logic; before
+  the F-14d repair it failed on a chain younger than `MaxNonce`, where the uint64 subtraction in
+  `cacheMsgs.commit` wrapped and the commit erased the whole log — `C14_young_chain_log_kept_regression`). -/
 def Faithful (s0 : State) (bs : List Block) : Prop := faithful s0 bs = true
 
 instance (s0 : State) (bs : List Block) : Decidable (Faithful s0 bs) := by unfold Faithful; infer_instance
@@ -239,23 +241,33 @@ theorem C14_seal_prepare_agree_partial (g g' : Agc) (p : Params) (h : Nat) (forc
   ⟨(sealRound_rel g g' p h force hz).1, (sealRound_rel g g' p h force hz).2,
    (prepareRound_rel g g' h hz).1, (prepareRound_rel g g' h hz).2⟩
 
-/-! ## two further restart points outside `Faithful` at which the model diverges (candidates, to be
-replayed on the real application; neither is F-14a/F-14b) -/
+/-! ## two restart points at which the unrepaired code diverged (F-14c, F-14d): regression theorems
+
+Both were found as false proof goals of the development above, exhibited in the model, reproduced on
+the real application (harness `oracle_restart`, scenarios `f14c=1` / `f14d=1`: DeliverTx `ok` vs
+`oracle:2`; stored NextRoundID 3 vs 2) and repaired; the model follows the repaired code, the pre-fix
+behaviour is kept as `recacheShortBranchPreFix` / `commitMsgsPreFix` (Proofs/OracleRestart.lean). -/
 
 /-- a validator-set change in block 9, the block at which round 3 opens; restart in block 10 -/
 def exBlocksVU : List Block :=
   [exEmpty, exEmpty, exEmpty, exEmpty, exEmpty, exEmpty, exEmpty, exEmpty,
    { blockTime := 100, txs := [], updates := [(2, 11)] }]
 
-/-- Restart in the block right after a validator-set change: `recacheAggregatorContext` takes its
-`from >= to` branch, which sets params and validators but never calls `PrepareRoundEndBlock`; the
-restarted node has no rounds at all and rejects ("round", oracle:2) the price the continuous node
-accepts for the round that opened in that block. -/
-theorem C14_restart_after_valset_change_diverges :
+/-- F-14c. Restart in the block right after a validator-set change: `recacheAggregatorContext` takes
+its `from >= to` branch. Before the repair that branch set params and validators but never called
+`PrepareRoundEndBlock`: the restarted node had no rounds and refused ("round", oracle:2) the price the
+continuous node accepts for the round that opened in that block. Repaired (prepare(to−2), seal(to−1,
+forced iff the validator set changed there), prepare(to−1)): the rebuilt context and cache are *equal*
+to the live ones and the price is accepted. (The history is outside `Faithful` — the theorem's proof
+does not cover this branch — hence the direct evaluation.) -/
+theorem C14_restart_after_valset_change_regression :
+    ((runBlocks exGenesis exBlocksVU).bind (fun r => (recacheShortBranchPreFix (beginBlock r.1 100)).map
+      (fun g => (g.rounds, g.checkMsg exParams ((exTx 0 9 1 "9").msgs.headD default)))) =
+      some ([], some (MsgErr.invalidMsg "round"))) ∧
     ((runBlocks exGenesis exBlocksVU).map (fun r => (deliverTx (beginBlock r.1 100) (exTx 0 9 1 "9")).2) = some TxOut.ok) ∧
-    ((runBlocks exGenesis exBlocksVU).bind (fun r => (restartAt r.1 100).map (fun s' => (deliverTx s' (exTx 0 9 1 "9")).2)) =
-      some (TxOut.msg 0 (MsgErr.invalidMsg "round"))) ∧
-    faithful exGenesis exBlocksVU = false := by decide
+    ((runBlocks exGenesis exBlocksVU).bind (fun r => (restartAt r.1 100).map (fun s' =>
+      (decide (s'.agc = r.1.agc), decide (s'.cache = r.1.cache), (deliverTx s' (exTx 0 9 1 "9")).2))) =
+      some (true, true, TxOut.ok)) := by decide
 
 /-- a chain younger than MaxNonce (= 5 here; feeder starts at block 1) -/
 def exFeeder5 : Feeder := { tokenID := 1, ruleID := 2, startRoundID := 2, startBaseBlock := 1, interval := 9, endBlock := 0 }
@@ -266,15 +278,44 @@ def exBlocksYoung : List Block :=
    { blockTime := 100, txs := [exTx 1 1 1 "9"], updates := [] },
    { blockTime := 100, txs := [exTx 2 1 1 "9"], updates := [] }]
 
-/-- At heights below MaxNonce the uint64 expression `block - MaxNonce` in `cacheMsgs.commit` wraps, so
-every commit erases the whole message log: after block 3 the entry of block 2 is gone although the
-replay window of a restart in block 4 starts at block 2; the restarted node rebuilds round 2 without
-v1's report (contexts differ beyond nonces). -/
-theorem C14_young_chain_log_erased_diverges :
+/-- F-14d. At heights below MaxNonce the uint64 expression `block - MaxNonce` in `cacheMsgs.commit`
+wrapped, so the commit of block 3 erased the log entry of block 2 although the replay window of a
+restart in block 4 starts at block 2 (`commitMsgsPreFix` on the very store and cache of block 3 keeps
+only key 3). Repaired (no pruning while `block ≤ MaxNonce`): both entries are kept, the history is
+`Faithful`, so `C14_restart_equivalence_partial` applies, and the rebuilt context agrees with the live
+one up to nonces. -/
+theorem C14_young_chain_log_kept_regression :
+    ((runBlocks exGenesis5 (exBlocksYoung.take 2)).map (fun r =>
+        let s := (runTxs (beginBlock r.1 100) [exTx 2 1 1 "9"]).1
+        ((commitMsgsPreFix s.store 5 3 s.cacheD.msgs).recentMsgs.map (·.1),
+         (commitMsgs s.store 5 3 s.cacheD.msgs).recentMsgs.map (·.1))) = some ([3], [2, 3])) ∧
     ((runBlocks exGenesis5 exBlocksYoung).map (fun r => (r.2, r.1.store.recentMsgs.map (·.1))) =
-      some ([[], [TxOut.ok], [TxOut.ok]], [3])) ∧
+      some ([[], [TxOut.ok], [TxOut.ok]], [2, 3])) ∧
     ((runBlocks exGenesis5 exBlocksYoung).bind (fun r => (restartAt r.1 100).map (fun s' =>
-      decide (s'.agc.map Agc.Z = r.1.agc.map Agc.Z))) = some false) ∧
-    faithful exGenesis5 exBlocksYoung = false := by decide
+      decide (s'.agc.map Agc.Z = r.1.agc.map Agc.Z))) = some true) ∧
+    faithful exGenesis5 exBlocksYoung = true := by decide
+
+/-- MaxNonce 5 on a chain older than MaxNonce: feeder base 6, v1's price in block 7, v2's in block 8 -/
+def exFeederW : Feeder := { tokenID := 1, ruleID := 2, startRoundID := 2, startBaseBlock := 6, interval := 11, endBlock := 0 }
+def exParamsW : Params := { exParams with maxNonce := 5, feeders := [exParams.feeders.getD 0 default, exFeederW] }
+def exGenesisW : State := { exGenesis with store := { exGenesis.store with params := exParamsW } }
+def exBlocksW : List Block :=
+  [exEmpty, exEmpty, exEmpty, exEmpty, exEmpty, exEmpty,
+   { blockTime := 100, txs := [exTx 1 6 1 "9"], updates := [] },
+   { blockTime := 100, txs := [exTx 2 6 1 "9"], updates := [] },
+   exEmpty]
+
+/-- F-14f. `recacheAggregatorContext` computed the start of its replay window from the package variable
+`common.MaxNonce` before any params were read; a freshly started process holds the compiled-in default 3
+there. With MaxNonce 5 a restart in block 10 replayed from block 8 and lost the report logged at block 7,
+which is still in the store (reproduced on the real application: NextRoundID 3 vs 2). Repaired (window
+from the stored params): the replay starts at block 6, the history is `Faithful`, and the rebuilt
+context agrees with the live one up to nonces. -/
+theorem C14_replay_window_from_params_regression :
+    ((runBlocks exGenesisW exBlocksW).map (fun r =>
+        (r.1.store.recentMsgs.map (·.1), replayFromIPreFix r.1 1, replayFromI r.1 1)) = some ([7, 8], 8, 6)) ∧
+    ((runBlocks exGenesisW exBlocksW).bind (fun r => (restartAt r.1 100).map (fun s' =>
+      decide (s'.agc.map Agc.Z = r.1.agc.map Agc.Z))) = some true) ∧
+    faithful exGenesisW exBlocksW = true := by decide
 
 end ExoVerif.Oracle
